@@ -12,6 +12,21 @@ TRUST = ("Trusted: Coq 8.16.1 kernel (vm_compute where stated; no native_compute
 
 # id -> (claimed?, level text, technique, extra note / not-applicable reason)
 CHECKS = {
+    "C01": (True,
+            "Theorems for ALL cue lists (no size bound): every representable list (any number of cues; times in int64 range; lines "
+            "of styled runs with bold/italic/underline/font colour, arbitrary UTF-8 text incl. '&', '<' and no-break space, free of line "
+            "terminators and '-->') is written to a document that the reader model maps back to the same cues - times truncated to the "
+            "millisecond, cues numbered 1..n, every line and run unchanged (C01_write_read); a written line parses back to its runs; "
+            "unescape is a left inverse of escape on every byte string; LF, CR LF and lone CR renderings of any line list denote the same "
+            "document, an unterminated last line included; the reader never panics. The reader/writer/markup models are run (extracted) "
+            "against ReadFromSRT/WriteToSRT on every generated case; the reading half over all tolerated renderings (BOM, index "
+            "present/absent/garbage, 1..3 blank lines, 0..3 at EOF, ',' or '.', 1..3 fraction digits, coordinates, spacing, unterminated and "
+            "multi-line emphasis tags, line ends straddling the scanner's buffer boundary) is decided on the implementation by a ground-truth "
+            "oracle, the writing half by an independent SubRip decoder written in the harness.",
+            "Rocq proof over a Gallina model of the SubRip reader, writer and markup parser + extracted-model differential correspondence",
+            "golang.org/x/net/html's tokenizer is modelled on the fragment html_simple (tags b/i/u/font with a color attribute, text, "
+            "comments; see Kit/Html.v) - outside it only the Ok/Err/Panic class is compared; bufio.Scanner is modelled by Kit/Scan.v "
+            "(C17); rendering-tolerance theorems beyond EOL are not all proved yet (oracle + correspondence only)."),
     "C12": (True,
             "Theorems for all cue lists and all definition maps (no size bound): Order is a sorted, stable permutation and "
             "any stable sort yields the model's result; Merge's cues are the stable ordered union, its definitions the union "
